@@ -54,6 +54,41 @@ type c04Cfg struct {
 	Set  int    `json:"set"`
 	Kind string `json:"window"`
 	MaxL int    `json:"max_len"`
+	// Pairs > 0: every unordered pair of distinct tuples over c04Components^Pairs, each fed as t1,t2,t1,t2
+	Pairs int `json:"pair_columns,omitempty"`
+	Part  int `json:"part,omitempty"`
+}
+
+const c04PairParts = 4
+
+// c04Components: the component values of the pairwise collision search. Every separator, escape and marker
+// character of the key encoders appears alone, leading, trailing and doubled.
+func c04Components(tier string, cols int) []any {
+	if cols == 3 {
+		return []any{"", "|", "a", nil}
+	}
+	c := []any{"", "|", "\\", "a", "|a", "a|", "\\|", us, nil}
+	if tier == "thorough" {
+		c = append(c, "||", "\\N", "N", "\x00NULL", "a"+us+"a", us+us, "\\\\", "|\\")
+	}
+	return c
+}
+
+func c04PairUniverse(tier string, cols int) []c04Tuple {
+	comp := c04Components(tier, cols)
+	var out []c04Tuple
+	var rec func(t c04Tuple)
+	rec = func(t c04Tuple) {
+		if len(t) == cols {
+			out = append(out, append(c04Tuple(nil), t...))
+			return
+		}
+		for _, c := range comp {
+			rec(append(t, c))
+		}
+	}
+	rec(nil)
+	return out
 }
 
 func c04Configs(tier string) []c04Cfg {
@@ -67,7 +102,14 @@ func c04Configs(tier string) []c04Cfg {
 			if k == "session" && c04Sets[si].Cols == 0 {
 				continue // without a key the sentinel joins the same session stream: that is C10's subject
 			}
-			out = append(out, c04Cfg{si, k, maxL})
+			out = append(out, c04Cfg{Set: si, Kind: k, MaxL: maxL})
+		}
+	}
+	for _, cols := range []int{2, 3} {
+		for _, k := range c04Kinds {
+			for part := 0; part < c04PairParts; part++ {
+				out = append(out, c04Cfg{Set: -1, Kind: k, Pairs: cols, Part: part})
+			}
 		}
 	}
 	return out
@@ -256,6 +298,9 @@ func c04Classify(set c04Set, exp, got []string) string {
 func (c04) Run(u fw.Unit) fw.Result {
 	sp := parseEnum(u)
 	cfg := c04Configs(u.Tier)[sp.Cfg]
+	if cfg.Pairs > 0 {
+		return c04RunPairs(u.Tier, cfg)
+	}
 	set := c04Sets[cfg.Set]
 	a := newAcc("C04", "det-groupby-"+cfg.Kind)
 	sql := c04SQL(set, cfg.Kind)
@@ -291,6 +336,46 @@ func (c04) Run(u fw.Unit) fw.Result {
 	return a.result()
 }
 
+// c04RunPairs: all unordered pairs of distinct tuples of the universe; two tuples must give two groups.
+func c04RunPairs(tier string, cfg c04Cfg) fw.Result {
+	a := newAcc("C04", "det-groupby-pairs-"+cfg.Kind)
+	uni := c04PairUniverse(tier, cfg.Pairs)
+	name := fmt.Sprintf("pairs%d", cfg.Pairs)
+	sql := c04SQL(c04Set{Name: name, Cols: cfg.Pairs}, cfg.Kind)
+	seq := []int{0, 1, 0, 1}
+	idx := 0
+	for i := 0; i < len(uni); i++ {
+		for j := i + 1; j < len(uni); j++ {
+			idx++
+			if idx%c04PairParts != cfg.Part {
+				continue
+			}
+			set := c04Set{Name: name, Cols: cfg.Pairs, Tuples: []c04Tuple{uni[i], uni[j]}}
+			r := detExec(sql, detOpts{}, c04Feed(set, cfg.Kind, seq))
+			a.r.Evaluations++
+			a.r.States++
+			a.r.Transitions += int64(r.Steps)
+			cs := map[string]any{"set": name, "window": cfg.Kind, "sql": sql, "seq": seq, "tuples": tuplesJSON(set, seq)}
+			if r.ExecErr != "" || r.Status != sched.StatusOK {
+				a.fail("C04|"+cfg.Kind+"|exec", r.ExecErr+" "+r.Status.String()+" "+firstLine(r.Panic), cs, nil, nil)
+				continue
+			}
+			exp := c04Expected(set, cfg.Kind, seq)
+			got := c04Observed(set, r.Batches)
+			a.outcome(strings.Join(got, ";"))
+			a.r.Nontrivial++
+			if strings.Join(exp, ";") != strings.Join(got, ";") {
+				a.fail(fmt.Sprintf("C04|%s|set=%s|%s", cfg.Kind, name, c04Classify(set, exp, got)),
+					fmt.Sprintf("groups delivered %q, reference %q", got, exp), cs, exp, r.Batches)
+			}
+			if idx == 50 {
+				a.sample(map[string]any{"sql": sql, "rows": tuplesJSON(set, seq), "delivered_groups": got})
+			}
+		}
+	}
+	return a.result()
+}
+
 func tuplesJSON(set c04Set, seq []int) []string {
 	var out []string
 	for _, x := range seq {
@@ -315,7 +400,7 @@ func tuplesJSON(set c04Set, seq []int) []string {
 func (c04) Describe(tier string) fw.Description {
 	return fw.Description{
 		Level: "model_checking",
-		Rule: "bounded-exhaustive enumeration on the real engine (deterministic schedule): 15 tuple alphabets (0..3 grouping columns; strings with '|', ',', unit separator, the NULL marker text, empty string; numbers; NULL; missing; upper(k)) x 4 window kinds (tumbling event-time, CountingWindow(2), session, GLOBAL WINDOW TRIGGER WHEN count(*)>=2) x all row sequences of length 1..L over the alphabet; the delivered (group key, id set) multiset must equal the reference grouping keyed by typed tuples; non-trivial = at least two expected groups/deliveries",
+		Rule: "bounded-exhaustive enumeration on the real engine (deterministic schedule): 15 tuple alphabets (0..3 grouping columns; strings with '|', ',', unit separator, the NULL marker text, empty string; numbers; NULL; missing; upper(k)) x 4 window kinds (tumbling event-time, CountingWindow(2), session, GLOBAL WINDOW TRIGGER WHEN count(*)>=2) x all row sequences of length 1..L over the alphabet; plus a pairwise collision search: every unordered pair of distinct tuples over a component alphabet (empty string, '|', '\\', unit separator and NULL alone / leading / trailing / doubled; 2 and 3 columns) fed as t1,t2,t1,t2 to every window kind; the delivered (group key, id set) multiset must equal the reference grouping keyed by typed tuples; non-trivial = at least two expected groups/deliveries",
 		Bounds:      map[string]any{"max_len": map[string]int{"quick": 4, "thorough": 6}, "tuple_sets": len(c04Sets), "window_kinds": c04Kinds},
 		Assumptions: []string{"NULL and missing are never mixed in one column of one alphabet (the property treats them as one group)", "one value type per grouping column"},
 	}
